@@ -19,8 +19,9 @@ if [ ! -x "$GO" ]; then echo "cannot resolve go toolchain for $REPO" >&2; exit 2
 export GOTOOLCHAIN=local GOSUMDB=off
 
 SEED=${VERIF_SEED:-1}
-OUT="$VERIF/out/$ID"
-BIN="$VERIF/out/bin"
+OUTROOT=${VERIF_OUTROOT:-$VERIF/out}
+OUT="$OUTROOT/$ID"
+BIN="$OUTROOT/bin"
 mkdir -p "$OUT" "$BIN" "$VERIF/evidence"
 rm -rf "$OUT/parts" "$OUT"/child-*.log; [ -z "$REPLAY" ] && rm -rf "$OUT/replay"
 mkdir -p "$OUT/parts" "$OUT/replay"
@@ -76,6 +77,7 @@ fi
 W=${W:-900}
 
 export VERIF_TIER=$TIER VERIF_SEED=$SEED VERIF_OUT="$OUT" VERIF_CHILDREN=$N VERIF_DIR="$VERIF"
+export VERIF_EVIDENCE=${VERIF_EVIDENCE:-$VERIF/evidence}; mkdir -p "$VERIF_EVIDENCE"
 export GORACE="halt_on_error=0 log_path=$OUT/race"
 rm -f "$OUT"/race.*
 pids=()
